@@ -87,6 +87,7 @@ package asn1
 //@ loop 1 invariant initOffset <= offset && offset <= len(bytes) || offset == initOffset
 //@ loop 1 invariant shifted == offset - initOffset && 0 <= shifted && shifted <= 5 && 0 <= ret64 && ret64 >> (7 * uint64(shifted)) == 0
 //@ loop 1 invariant forall j int :: initOffset <= j && j < offset ==> bytes[j] & 128 == 128
+//@ loop 1 invariant shifted >= 1 ==> bytes[initOffset] != 128
 //@ loop 1 invariant (shifted == 1 ==> ret64 == int64(bytes[initOffset] & 127)) && (shifted == 2 ==> ret64 == int64(bytes[initOffset] & 127) * 128 + int64(bytes[initOffset + 1] & 127))
 //@ ensures [consumes-between-one-and-five-octets-inside-the-input] err == nil ==> initOffset < offset && offset <= len(bytes) && offset - initOffset <= 5
 //@ ensures [continuation-bits-delimit-the-integer] err == nil ==> bytes[offset - 1] & 128 == 0 && (forall j int :: initOffset <= j && j < offset - 1 ==> bytes[j] & 128 == 128)
